@@ -151,6 +151,11 @@ func runCheck(root string, args []string) int {
 			}
 		}
 	}
+	if _, lerrs := E.GenLemmas(prop); len(lerrs) > 0 {
+		for _, le := range lerrs {
+			report("lemma", "lemma could not be generated", le, "", "", true)
+		}
+	}
 	res := E.solveAll(cfg)
 	// vacuity guards: the axioms alone, and each function's preconditions, must not be contradictory
 	vac := 0
